@@ -702,7 +702,8 @@ def _enum(R, rid, m, fns, adt):
                 ok = p.get("k") == "pexpr" and (p.get("e") or {}).get("v") == pat["v"]
             elif pat["kind"] == "range":
                 sub = p.get("sub") if p.get("k") == "bind" else p
-                ok = (sub or {}).get("k") == "prange" and sub["lo"].get("v") == pat["lo"] and sub["hi"].get("v") == pat["hi"] and sub.get("incl") is True
+                ok = ((sub or {}).get("k") == "prange" and sub["lo"].get("v") == pat["lo"] and isinstance(sub["hi"].get("v"), int)
+                      and sub["hi"]["v"] - (0 if sub.get("incl") is True else 1) == pat["hi"])
                 ok = ok and ((p.get("k") == "bind" and p["name"] == pat["bind"]) or (p.get("k") == "prange" and pat["bind"] is None))
                 if p.get("k") == "bind":
                     env.bind(p["id"], p["name"])
